@@ -23,7 +23,8 @@
     * names are stored as C strings: `cstr` cuts at the first NUL byte (`absExport`, `addImport`);
     * limits: `absMemLimits` / `absTableLimits` of Part 3;
     * constant expressions, function bodies: the byte range of the file, verbatim (`Located.expr`, `Code.body`) —
-      see "the stored expression bytes" below;
+      see "the stored expression bytes" below; the immediates inside bodies and the locals vector are decoded later,
+      by the C writer: Part 5, `Props/C08Instr.lean` (`instr_immediates_leb`, `locals_type_lookup`);
     * `Function.start` = offset of the body from the start of the code-section payload; `hashed` = the bytes given
       to SHA-1 (locals and instructions);
     * data segments: the form (flag) is not stored, hence `data_flag0_eq_flag2`.
